@@ -12,7 +12,7 @@ import systems
 from p_misc import margin
 
 
-def make_logged_component(rng, nx, na, levels, kpl, cost_mode, log, name='lc', norms=False):
+def make_logged_component(rng, nx, na, levels, kpl, cost_mode, log, name='lc', norms=False, slevels=()):
     from amisc import Component, Variable
     from amisc.training import SparseGrid
     doms = []
@@ -54,6 +54,8 @@ def make_logged_component(rng, nx, na, levels, kpl, cost_mode, log, name='lc', n
     kw = {'data_fidelity': tuple(levels)}
     if na:
         kw['model_fidelity'] = (2,) * na
+    if slevels:     # fidelity indices of the surrogate itself: they ask for no training data of their own
+        kw['surrogate_fidelity'] = tuple(slevels)
     comp = Component(model, xs, ys, name=name, vectorized=False, training_data=SparseGrid(knots_per_level=kpl), **kw)
     return comp, f, doms
 
@@ -64,13 +66,17 @@ def run_histories(ctx: Ctx):
     lines, meta = [], []
     for n in range(ctx.pick(24, 300)):
         nx = rng.randint(1, 3); na = rng.randint(0, 2) if nx < 3 else rng.randint(0, 1); kpl = rng.randint(1, 3 if nx < 3 else 2)
+        if n % 6 == 2:
+            nx = min(nx, 2)
         levels = [rng.randint(1, 2) for _ in range(nx)]
         cost_mode = rng.choice(['constant', 'nondyadic', 'nondyadic', 'small', 'none'])
         log = []
-        comp, f, doms = make_logged_component(rng, nx, na, levels, kpl, cost_mode, log, name=f'lc{n}', norms=rng.random() < 0.3)
+        # every sixth history (and always the third): the surrogate has fidelity indices of its own (several indices share one set of training points)
+        slevels = tuple(rng.randint(1, 2) for _ in range(rng.randint(1, 2))) if (n % 6 == 2 and nx < 3) else ()
+        comp, f, doms = make_logged_component(rng, nx, na, levels, kpl, cost_mode, log, name=f'lc{n}', norms=rng.random() < 0.3, slevels=slevels)
         system = System(comp, name=f'g{n}')
         names = [f'x{k}' for k in range(nx)]
-        mx = (2,) * na + tuple(levels)
+        mx = (2,) * na + tuple(levels) + slevels
         td = comp.training_data
         # record the order in which indices are refined inside each activation (neighbours come from a set)
         batches, grids_over_time = [], []
@@ -80,7 +86,7 @@ def run_histories(ctx: Ctx):
             batches[-1].append((tuple(alpha), tuple(beta)))
             return orig_refine(alpha, beta, *a, **k)
         td.refine = rec_refine
-        adaptive = rng.random() < 0.4
+        adaptive = rng.random() < 0.4 and not (slevels and n < 12)
         if rng.random() < 0.3:
             # an earlier history on the same component, then clear() and a changed model: nothing of it may survive
             pre = set()
@@ -96,7 +102,7 @@ def run_histories(ctx: Ctx):
                 lo0, hi0 = doms[k0]; sh = rng.choice([2.0, -3.0]) * (hi0 - lo0)
                 comp.inputs[names[k0]].update_domain((lo0 + sh, hi0 + sh), override=True)
                 doms[k0] = (lo0 + sh, hi0 + sh)
-        case = {'history': n, 'nx': nx, 'na': na, 'kpl': kpl, 'levels': levels, 'cost_mode': cost_mode, 'adaptive': adaptive, 'domains': [list(d_) for d_ in doms]}
+        case = {'history': n, 'nx': nx, 'na': na, 'kpl': kpl, 'levels': levels, 'cost_mode': cost_mode, 'adaptive': adaptive, 'domains': [list(d_) for d_ in doms], 'surrogate_fidelity': list(slevels)}
         nsteps = rng.randint(2, 7 if nx < 3 else 4)
         active = set()
         calls_per_batch = []
@@ -122,6 +128,8 @@ def run_histories(ctx: Ctx):
                     if not m:
                         batches.pop(); break
                     c = rng.choice(m)
+                    if slevels and step == 1:       # the second request: the first index along a surrogate-fidelity direction
+                        c = tuple([0] * (len(mx) - 1) + [1])
                     comp.activate_index(tuple(c[:na]), tuple(c[na:]), executor=ex)
                     active.add(c)
                     if rng.random() < 0.3:      # requests that must be ignored: already active (incl. the all-zero index), not a candidate
